@@ -1,4 +1,6 @@
 import SSLemmas.ExcTable
+import SSLemmas.ExcTableCPython
+import SSLemmas.ExcTableBisect
 /-!
 # C01 — contexts of a suspended frame: the table half
 
@@ -19,6 +21,10 @@ open SS.ExcTable
 
 theorem C01_varint_roundtrip (n : Nat) (rest : List Nat) : parseVarint (encVarint n ++ rest) = some (n, rest) :=
   parseVarint_enc n rest
+
+/-- CPython's assembler (five explicit cases, values below 2^30) is the generic encoder: the round trip is about
+the bytes the interpreter really writes. -/
+theorem C01_cpython_encoder (v : Nat) (h : v < 2 ^ 30) : cpEnc v = encVarint v := cpEnc_eq v h
 
 /-- Bit 7 (start-of-entry marker) does not disturb the decoder. -/
 theorem C01_varint_msb (n : Nat) (rest : List Nat) : parseVarint (setMsb (encVarint n) ++ rest) = some (n, rest) :=
@@ -46,6 +52,11 @@ theorem C01_truncated_tail (es : List Entry) (junk : List Nat) (hj : parseEntry 
       simp only [parseTableF, parseEntry_enc, List.map_cons]
       rw [ih f (by simpa using hf)]
 
+/-- The standard library's binary search (`bisect.bisect_left`, transcribed) returns, on a table with sorted
+disjoint ranges, the partition point: the number of entries starting at or before the position. -/
+theorem C01_bisect_partition (hs : List View) (hd : Disjoint hs) (c : Nat) :
+    bisectLeftBS hs c = (hs.takeWhile (ltKey · c)).length := bisectLeftBS_eq hs hd c
+
 /-- On a table with sorted, disjoint, non-empty ranges, stackscope's walk and the interpreter's handler chain
 are the same function — same blocks, same order, same behaviour on running out of fuel. -/
 theorem C01_walk_chain (hs : List View) (hd : Disjoint hs) (lasti : Nat) :
@@ -64,8 +75,9 @@ theorem C01_walk_cycle (f : Nat) (acc : List Block) :
   induction f generalizing acc with
   | zero => rfl
   | succ f ih =>
-    simp only [walkGo, bisectLeft, List.takeWhile, ltKey, covers]
-    simp
+    have hb : bisectLeftBS [{ start := 0, end_ := 10, target := 4, depth := 0, lasti := false }] 4 = 1 := by decide
+    simp only [walkGo, hb]
+    simp [covers]
     exact ih _
 
 theorem c01_ctxOf_handler {α β : Type} (stack : List α) (selfOf : α → Option β) (b : Block) (c : Nat × Option β)
